@@ -5,6 +5,7 @@ CONSTANTS
   MaxFaults = 3
   MaxDone = 1
   AllowKill = TRUE
+  BadSignals = {"healthy", "done"}
   FaultKinds = {"err", "nil", "panic", "canceled", "wrapcanceled", "deadline"}
   GenDepth = 60
   KillFrom = 25
